@@ -783,3 +783,367 @@ Example orphan_at_top_level_flips_layout :
   let f := [([], FDir); ([[1;2]], FDir); ([[1;2]; [3;4]], FFile [7;0])] in
   split_auto f = true /\ split_auto (fs_set [[46; 3; 4]] (FFile []) (fs_del [[1;2]] f)) = false.
 Proof. vm_compute. split; reflexivity. Qed.
+
+(* =====================================================================================
+   store_spec for the FIXED DiskDict (the code in /repo since 40262ad: temporary file +
+   os.replace, unreadable => missing, __contains__ = loadable, memoisation under the caller's
+   key) on disk, flat and split layout; crash-free executions.
+   The file system is an association list, so the invariants that must survive the
+   `fs_del tmp` of a rename are stated on the LIST (every entry at the given depth is a
+   file / a directory), not only on what fs_get sees.
+   ===================================================================================== *)
+Definition lvl_files (L : nat) (f : fs) : Prop :=
+  Forall (fun e => length (fst e) = L -> exists b, snd e = FFile b) f.
+Definition nomkdir (L : nat) (o : op) : Prop := match o with Mkdir p => length p <> L | _ => True end.
+
+Lemma run_op_lvl L o f : nomkdir L o -> lvl_files L f -> lvl_files L (run_op f o).
+Proof.
+  intros HD HF. unfold run_op. destruct (op_ok o f) eqn:OK; cbn [negb]; [|exact HF].
+  destruct o as [p|p|p b|s d]; cbn [nomkdir] in HD.
+  - destruct (fs_get p f); [exact HF|]. apply fs_set_forall; [cbn; intros L'; contradiction|exact HF].
+  - apply fs_set_forall; [cbn; intros _; eexists; reflexivity|exact HF].
+  - destruct (fs_get p f) as [[|c]|]; try exact HF. apply fs_set_forall; [cbn; intros _; eexists; reflexivity|exact HF].
+  - cbn [op_ok] in OK. destruct (fs_get s f) as [[|c]|]; try discriminate.
+    apply fs_del_forall, fs_set_forall; [cbn; intros _; eexists; reflexivity|exact HF].
+Qed.
+
+Lemma lvl_files_get L f p nd : lvl_files L f -> length p = L -> fs_get p f = Some nd -> exists b, nd = FFile b.
+Proof.
+  unfold lvl_files. induction f as [|[q x] f IH]; intros HF Lp G; [discriminate|].
+  cbn [fs_get] in G. destruct (path_eqb q p) eqn:E.
+  - apply path_eqb_eq in E. subst q. inversion G; subst x. exact (Forall_inv HF Lp).
+  - apply IH; [exact (Forall_inv_tail HF)|exact Lp|exact G].
+Qed.
+Lemma lvl_files_not_dir L f p : lvl_files L f -> length p = L -> is_dir p f = false.
+Proof.
+  intros HF Lp. unfold is_dir. destruct (fs_get p f) as [nd|] eqn:G; [|reflexivity].
+  destruct (lvl_files_get L f p nd HF Lp G) as [b ->]. reflexivity.
+Qed.
+Lemma top_dirs_get f a nd : top_all_dirs f -> fs_get [a] f = Some nd -> nd = FDir.
+Proof.
+  unfold top_all_dirs. induction f as [|[q x] f IH]; intros HF G; [discriminate|].
+  cbn [fs_get] in G. destruct (path_eqb q [a]) eqn:E.
+  - apply path_eqb_eq in E. subst q. inversion G; subst x. exact (Forall_inv HF eq_refl).
+  - apply IH; [exact (Forall_inv_tail HF)|exact G].
+Qed.
+
+Lemma is_tmp_cons h : is_tmp_name (TMPMARK :: h) = true.
+Proof. reflexivity. Qed.
+
+Section FixInstances.
+Variable encode : con -> bytes.
+Variable decode : bytes -> option con.
+Variable mr : nat.
+Hypothesis RT : forall c, decode (encode c) = Some c.
+
+(* an uninterrupted run of the fixed writer *)
+Lemma fix_full_run k v f : key_shape k -> dir_ready k f ->
+  let g := run_ops (setitem_ops_fix con encode k v) f in
+  fs_get (kpath k) g = Some (FFile (encode v)) /\
+  (forall q, q <> kpath k -> q <> tmp_of (kpath k) -> ~ In (Mkdir q) (mkdir_ops (kpath k)) ->
+             fs_get q g = fs_get q f).
+Proof.
+  intros Hs Hr g.
+  assert (E : g = crash_at (length (setitem_ops_fix con encode k v)) (setitem_ops_fix con encode k v) f)
+    by (unfold g, crash_at; rewrite firstn_all; reflexivity).
+  split.
+  - rewrite E. apply (crash_fix_target con encode k v f _ Hs Hr). apply Nat.le_refl.
+  - intros q H1 H2 H3. rewrite E. apply crash_fix_others; assumption.
+Qed.
+
+(* what the fixed reader does on a node that is absent or a complete entry *)
+Lemma getitem_fix_spec (d : dd con) k :
+  dd_dir d = true -> is_dir (kpath k) (dd_fs d) = false ->
+  (fs_get (kpath k) (dd_fs d) = None \/ exists c, fs_get (kpath k) (dd_fs d) = Some (FFile (encode c))) ->
+  getitem_fix con decode (S mr) d k =
+    match mem_get k (dd_mem d) with
+    | Some c => (Ok c, d)
+    | None => match fs_get (kpath k) (dd_fs d) with
+              | Some (FFile b) => match decode b with
+                                  | Some c => (Ok c, mkDD (mem_set k c (dd_mem d)) (dd_dir d) (dd_fs d))
+                                  | None => (KeyErr, d) end
+              | _ => (KeyErr, d)
+              end
+    end.
+Proof.
+  intros Hd Hnd Hf. unfold getitem_fix. destruct (mem_get k (dd_mem d)); [reflexivity|].
+  rewrite Hd, Hnd. cbn [negb]. unfold fs_exists.
+  destruct Hf as [E|[c E]]; rewrite E; cbn [negb]; [reflexivity|].
+  cbn [retry]. unfold try_load. rewrite E, RT. reflexivity.
+Qed.
+
+(* ---------------- flat layout ---------------- *)
+Definition fkey (k : dkey) : Prop := exists h, k = KS h /\ is_tmp_name h = false.
+Definition finv (d : dd con) : Prop :=
+  dd_dir d = true /\ is_dir [] (dd_fs d) = true /\ lvl_files 1 (dd_fs d) /\
+  (forall h, is_tmp_name h = false ->
+     fs_get [h] (dd_fs d) = None \/ exists c, fs_get [h] (dd_fs d) = Some (FFile (encode c))) /\
+  (forall h c, is_tmp_name h = false -> mem_get (KS h) (dd_mem d) = Some c ->
+     fs_get [h] (dd_fs d) = Some (FFile (encode c))).
+
+Lemma finv_getitem d h : finv d -> is_tmp_name h = false ->
+  fst (getitem_fix con decode (S mr) d (KS h)) =
+    (match flat_view decode d (KS h) with Some c => Ok c | None => KeyErr end) /\
+  finv (snd (getitem_fix con decode (S mr) d (KS h))) /\
+  (forall k', fkey k' -> flat_view decode (snd (getitem_fix con decode (S mr) d (KS h))) k' = flat_view decode d k').
+Proof.
+  intros (Hd & Hr & HL & Hf & Hm) Ht.
+  rewrite (getitem_fix_spec d (KS h) Hd (lvl_files_not_dir 1 _ [h] HL eq_refl) (Hf h Ht)).
+  unfold flat_view. cbn [kpath].
+  destruct (mem_get (KS h) (dd_mem d)) as [c0|] eqn:M; cbn [fst snd].
+  - split; [reflexivity|]. split; [repeat split; assumption|reflexivity].
+  - destruct (Hf h Ht) as [E|[c E]]; rewrite E; cbn [fst snd].
+    + split; [reflexivity|]. split; [repeat split; assumption|reflexivity].
+    + rewrite RT. cbn [fst snd dd_mem dd_dir dd_fs].
+      split; [reflexivity|]. split.
+      * repeat split; try assumption. cbn [dd_mem]. intros h' c' Ht' M'.
+        destruct (list_eq_dec Nat.eq_dec h' h) as [->|Hne].
+        -- rewrite mem_get_set_same in M'. inversion M'; subst. exact E.
+        -- rewrite mem_get_set_other in M' by congruence. apply Hm; assumption.
+      * intros k' (h' & -> & Ht'). cbn [dd_mem kpath].
+        destruct (list_eq_dec Nat.eq_dec h' h) as [->|Hne].
+        -- rewrite mem_get_set_same, M, E, RT. reflexivity.
+        -- rewrite mem_get_set_other by congruence. reflexivity.
+Qed.
+
+Theorem flat_store_spec_fix : store_spec (ops_fix encode decode (S mr)) finv (flat_view decode) fkey.
+Proof.
+  unfold store_spec, ops_fix. cbn [o_contains o_getitem o_setitem]. split; [|split].
+  - intros d k HI (h & -> & Ht). destruct (finv_getitem d h HI Ht) as (G1 & G2 & G3).
+    unfold contains_fix. destruct (getitem_fix con decode (S mr) d (KS h)) as [r d'].
+    cbn [fst snd] in *. subst r.
+    destruct (flat_view decode d (KS h)); cbn [fst snd]; (split; [reflexivity|split; [exact G2|exact G3]]).
+  - intros d k HI (h & -> & Ht). apply finv_getitem; assumption.
+  - intros d k c (Hd & Hr & HL & Hf & Hm) (h & -> & Ht).
+    unfold setitem_fix, finv, flat_view. cbn [dd_mem dd_dir dd_fs]. rewrite Hd.
+    assert (DR : dir_ready (KS h) (dd_fs d)).
+    { unfold dir_ready. cbn [kpath]. repeat split; try assumption.
+      - apply (lvl_files_not_dir 1); [exact HL|reflexivity].
+      - apply (lvl_files_not_dir 1); [exact HL|reflexivity]. }
+    destruct (fix_full_run (KS h) c (dd_fs d) (shape_flat h) DR) as [G O]. cbn [kpath] in G, O.
+    set (f1 := run_ops (setitem_ops_fix con encode (KS h) c) (dd_fs d)) in *.
+    assert (O' : forall h', h' <> h -> is_tmp_name h' = false -> fs_get [h'] f1 = fs_get [h'] (dd_fs d)).
+    { intros h' Hne Ht'. apply O; [congruence| |unfold mkdir_ops; cbn; tauto].
+      unfold tmp_of. cbn. intros EQ. inversion EQ; subst h'. discriminate. }
+    split; [|split].
+    + split; [reflexivity|]. split.
+      { unfold is_dir. rewrite O; [exact Hr|discriminate|unfold tmp_of; cbn; discriminate|unfold mkdir_ops; cbn; tauto]. }
+      split.
+      { unfold f1. apply (run_ops_inv (lvl_files 1) (nomkdir 1) (run_op_lvl 1)); [|exact HL].
+        intros o Ho. unfold setitem_ops_fix, mkdir_ops in Ho. cbn [kpath length Nat.ltb Nat.leb app] in Ho.
+        destruct Ho as [<-|Ho]; [exact I|].
+        apply in_app_iff in Ho. destruct Ho as [Ho|[<-|[]]]; [|exact I].
+        apply in_map_iff in Ho. destruct Ho as (x & <- & _). exact I. }
+      split.
+      * intros h' Ht'. destruct (list_eq_dec Nat.eq_dec h' h) as [->|Hne].
+        -- right. exists c. exact G.
+        -- rewrite O' by assumption. apply Hf, Ht'.
+      * intros h' c' Ht' M'. destruct (list_eq_dec Nat.eq_dec h' h) as [->|Hne].
+        -- rewrite mem_get_set_same in M'. inversion M'; subst. exact G.
+        -- rewrite mem_get_set_other in M' by congruence. rewrite O' by assumption. apply Hm; assumption.
+    + rewrite mem_get_set_same. reflexivity.
+    + intros k' (h' & -> & Ht') Hne. rewrite mem_get_set_other by exact Hne. cbn [kpath].
+      rewrite O'; [reflexivity| |exact Ht']. intros ->. apply Hne. reflexivity.
+Qed.
+
+Theorem fresh_view_fix_flat d k : finv d -> fkey k ->
+  finv (fresh d) /\ flat_view decode (fresh d) k = flat_view decode d k.
+Proof.
+  intros (Hd & Hr & HL & Hf & Hm) (h & -> & Ht). split.
+  - unfold fresh, finv. cbn [dd_mem dd_dir dd_fs mem_get]. repeat split; try assumption. discriminate.
+  - unfold flat_view, fresh. cbn [dd_mem dd_fs mem_get kpath].
+    destruct (mem_get (KS h) (dd_mem d)) as [c|] eqn:M; [|reflexivity].
+    rewrite (Hm h c Ht M), RT. reflexivity.
+Qed.
+
+(* ---------------- split layout ---------------- *)
+Definition skey (k : dkey) : Prop := exists a b, k = KT [a; b] /\ is_tmp_name b = false.
+Definition sinv (d : dd con) : Prop :=
+  dd_dir d = true /\ is_dir [] (dd_fs d) = true /\ top_all_dirs (dd_fs d) /\ lvl_files 2 (dd_fs d) /\
+  (forall a b, is_tmp_name b = false ->
+     fs_get [a; b] (dd_fs d) = None \/ exists c, fs_get [a; b] (dd_fs d) = Some (FFile (encode c))) /\
+  (forall a b c, is_tmp_name b = false -> mem_get (KT [a; b]) (dd_mem d) = Some c ->
+     fs_get [a; b] (dd_fs d) = Some (FFile (encode c))).
+
+Lemma sinv_getitem d a b : sinv d -> is_tmp_name b = false ->
+  fst (getitem_fix con decode (S mr) d (KT [a; b])) =
+    (match flat_view decode d (KT [a; b]) with Some c => Ok c | None => KeyErr end) /\
+  sinv (snd (getitem_fix con decode (S mr) d (KT [a; b]))) /\
+  (forall k', skey k' -> flat_view decode (snd (getitem_fix con decode (S mr) d (KT [a; b]))) k' = flat_view decode d k').
+Proof.
+  intros (Hd & Hr & HT & HL & Hf & Hm) Ht.
+  rewrite (getitem_fix_spec d (KT [a; b]) Hd (lvl_files_not_dir 2 _ [a; b] HL eq_refl) (Hf a b Ht)).
+  unfold flat_view. cbn [kpath].
+  destruct (mem_get (KT [a; b]) (dd_mem d)) as [c0|] eqn:M; cbn [fst snd].
+  - split; [reflexivity|]. split; [repeat split; assumption|reflexivity].
+  - destruct (Hf a b Ht) as [E|[c E]]; rewrite E; cbn [fst snd].
+    + split; [reflexivity|]. split; [repeat split; assumption|reflexivity].
+    + rewrite RT. cbn [fst snd dd_mem dd_dir dd_fs].
+      split; [reflexivity|]. split.
+      * repeat split; try assumption. cbn [dd_mem]. intros a' b' c' Ht' M'.
+        destruct (list_eq_dec (list_eq_dec Nat.eq_dec) [a'; b'] [a; b]) as [EQ|Hne].
+        -- inversion EQ; subst. rewrite mem_get_set_same in M'. inversion M'; subst. exact E.
+        -- rewrite mem_get_set_other in M' by congruence. apply Hm; assumption.
+      * intros k' (a' & b' & -> & Ht'). cbn [dd_mem kpath].
+        destruct (list_eq_dec (list_eq_dec Nat.eq_dec) [a'; b'] [a; b]) as [EQ|Hne].
+        -- inversion EQ; subst. rewrite mem_get_set_same, M, E, RT. reflexivity.
+        -- rewrite mem_get_set_other by congruence. reflexivity.
+Qed.
+
+Theorem split_store_spec_fix : store_spec (ops_fix encode decode (S mr)) sinv (flat_view decode) skey.
+Proof.
+  unfold store_spec, ops_fix. cbn [o_contains o_getitem o_setitem]. split; [|split].
+  - intros d k HI (a & b & -> & Ht). destruct (sinv_getitem d a b HI Ht) as (G1 & G2 & G3).
+    unfold contains_fix. destruct (getitem_fix con decode (S mr) d (KT [a; b])) as [r d'].
+    cbn [fst snd] in *. subst r.
+    destruct (flat_view decode d (KT [a; b])); cbn [fst snd]; (split; [reflexivity|split; [exact G2|exact G3]]).
+  - intros d k HI (a & b & -> & Ht). apply sinv_getitem; assumption.
+  - intros d k c (Hd & Hr & HT & HL & Hf & Hm) (a & b & -> & Ht).
+    unfold setitem_fix, sinv, flat_view. cbn [dd_mem dd_dir dd_fs]. rewrite Hd.
+    assert (DR : dir_ready (KT [a; b]) (dd_fs d)).
+    { unfold dir_ready. cbn [kpath]. split; [exact Hr|]. split; [apply (lvl_files_not_dir 2); [exact HL|reflexivity]|].
+      split; [apply (lvl_files_not_dir 2); [exact HL|reflexivity]|].
+      destruct (fs_get [a] (dd_fs d)) as [nd|] eqn:EA; [right|left; reflexivity].
+      rewrite (top_dirs_get _ a nd HT EA). reflexivity. }
+    destruct (fix_full_run (KT [a; b]) c (dd_fs d) (shape_split a b) DR) as [G O]. cbn [kpath] in G, O.
+    set (f1 := run_ops (setitem_ops_fix con encode (KT [a; b]) c) (dd_fs d)) in *.
+    assert (OPS : forall o, In o (setitem_ops_fix con encode (KT [a; b]) c) ->
+                  o = Mkdir [a] \/ o = OpenTrunc (tmp_of [a; b]) \/ (exists x, o = Append (tmp_of [a; b]) [x]) \/
+                  o = Rename (tmp_of [a; b]) [a; b]).
+    { intros o Ho. unfold setitem_ops_fix, mkdir_ops in Ho.
+      cbn [kpath length Nat.ltb Nat.leb prefixes_from map app] in Ho.
+      destruct Ho as [<-|[<-|Ho]]; [tauto|tauto|].
+      apply in_app_iff in Ho. destruct Ho as [Ho|[<-|[]]]; [|tauto].
+      apply in_map_iff in Ho. destruct Ho as (x & <- & _). right; right; left. eexists; reflexivity. }
+    assert (O' : forall a' b', [a'; b'] <> [a; b] -> is_tmp_name b' = false ->
+                 fs_get [a'; b'] f1 = fs_get [a'; b'] (dd_fs d)).
+    { intros a' b' Hne Ht'. apply O; [exact Hne| |].
+      - unfold tmp_of. cbn. intros EQ. inversion EQ; subst. discriminate.
+      - unfold mkdir_ops. cbn. intros [EQ|[]]. discriminate. }
+    split; [|split].
+    + split; [reflexivity|]. split.
+      { unfold is_dir. rewrite O; [exact Hr|discriminate|unfold tmp_of; cbn; discriminate|].
+        unfold mkdir_ops. cbn. intros [EQ|[]]. discriminate. }
+      split.
+      { unfold f1. apply (run_ops_inv top_all_dirs deep_op run_op_dirs); [|exact HT].
+        intros o Ho. destruct (OPS o Ho) as [E|[E|[[x E]|E]]]; subst o; cbn; try exact I; discriminate. }
+      split.
+      { unfold f1. apply (run_ops_inv (lvl_files 2) (nomkdir 2) (run_op_lvl 2)); [|exact HL].
+        intros o Ho. destruct (OPS o Ho) as [E|[E|[[x E]|E]]]; subst o; cbn; try exact I. discriminate. }
+      split.
+      * intros a' b' Ht'. destruct (list_eq_dec (list_eq_dec Nat.eq_dec) [a'; b'] [a; b]) as [EQ|Hne].
+        -- inversion EQ; subst. right. exists c. exact G.
+        -- rewrite O' by assumption. apply Hf, Ht'.
+      * intros a' b' c' Ht' M'. destruct (list_eq_dec (list_eq_dec Nat.eq_dec) [a'; b'] [a; b]) as [EQ|Hne].
+        -- inversion EQ; subst. rewrite mem_get_set_same in M'. inversion M'; subst. exact G.
+        -- rewrite mem_get_set_other in M' by congruence. rewrite O' by assumption. apply Hm; assumption.
+    + rewrite mem_get_set_same. reflexivity.
+    + intros k' (a' & b' & -> & Ht') Hne. rewrite mem_get_set_other by exact Hne. cbn [kpath].
+      rewrite O'; [reflexivity| |exact Ht']. intros EQ. apply Hne. rewrite EQ. reflexivity.
+Qed.
+
+Theorem fresh_view_fix_split d k : sinv d -> skey k ->
+  sinv (fresh d) /\ flat_view decode (fresh d) k = flat_view decode d k.
+Proof.
+  intros (Hd & Hr & HT & HL & Hf & Hm) (a & b & -> & Ht). split.
+  - unfold fresh, sinv. cbn [dd_mem dd_dir dd_fs mem_get]. repeat split; try assumption. discriminate.
+  - unfold flat_view, fresh. cbn [dd_mem dd_fs mem_get kpath].
+    destruct (mem_get (KT [a; b]) (dd_mem d)) as [c|] eqn:M; [|reflexivity].
+    rewrite (Hm a b c Ht M), RT. reflexivity.
+Qed.
+
+(* ---- a fresh process over the same directory, for the code that exists ---- *)
+(* digests are hexadecimal: no name derived from them starts with the '.' of a temporary file *)
+Definition hex_names (H : fpr -> name) : Prop :=
+  forall f, is_tmp_name (H f) = false /\ is_tmp_name (skipn 2 (H f)) = false.
+
+Theorem fresh_process_equiv_fix (H : fpr -> name) orc c d ns q :
+  hex_names H ->
+  (if split c then sinv d else finv d) ->
+  let ops := ops_fix encode decode (S mr) in
+  fst (maybe_run H ops orc c (fresh d, ns) q) = fst (maybe_run H ops orc c (d, ns) q) /\
+  snd (snd (maybe_run H ops orc c (fresh d, ns) q)) = snd (snd (maybe_run H ops orc c (d, ns) q)) /\
+  (forall k, (if split c then skey k else fkey k) ->
+     flat_view decode (fst (snd (maybe_run H ops orc c (fresh d, ns) q))) k =
+     flat_view decode (fst (snd (maybe_run H ops orc c (d, ns) q))) k).
+Proof.
+  intros HH HI ops. destruct (split c) eqn:ES.
+  - assert (KG : forall c' q', split c' = true -> skey (key_of H c' q')).
+    { intros c' q' E. unfold key_of. rewrite E. eexists; eexists. split; [reflexivity|apply HH]. }
+    apply (view_determines_behaviour H ops orc sinv (flat_view decode) skey (fun c' => split c' = true)
+             split_store_spec_fix KG c ES (fresh d) d ns q).
+    + apply (fresh_view_fix_split d (KT [[]; []])); [exact HI|]. eexists; eexists. split; reflexivity.
+    + exact HI.
+    + intros k Gk. apply fresh_view_fix_split; assumption.
+  - assert (KG : forall c' q', split c' = false -> fkey (key_of H c' q')).
+    { intros c' q' E. unfold key_of. rewrite E. eexists. split; [reflexivity|apply HH]. }
+    apply (view_determines_behaviour H ops orc finv (flat_view decode) fkey (fun c' => split c' = false)
+             flat_store_spec_fix KG c ES (fresh d) d ns q).
+    + apply (fresh_view_fix_flat d (KS [])); [exact HI|]. eexists. split; reflexivity.
+    + exact HI.
+    + intros k Gk. apply fresh_view_fix_flat; assumption.
+Qed.
+
+(* the cache directory right after DiskDict.__init__ satisfies both invariants *)
+Lemma finv_init : finv (mkDD [] true fs0).
+Proof.
+  unfold finv, fs0. cbn [dd_mem dd_dir dd_fs]. split; [reflexivity|]. split; [reflexivity|].
+  split; [repeat constructor; cbn; discriminate|]. split; [intros h _; left; reflexivity|intros h c _ M; discriminate].
+Qed.
+Lemma sinv_init : sinv (mkDD [] true fs0).
+Proof.
+  unfold sinv, fs0. cbn [dd_mem dd_dir dd_fs]. split; [reflexivity|]. split; [reflexivity|].
+  split; [repeat constructor; cbn; discriminate|]. split; [repeat constructor; cbn; discriminate|].
+  split; [intros a b _; left; reflexivity|intros a b c _ M; discriminate].
+Qed.
+End FixInstances.
+
+(* ---- all layouts at once, and the session-level consequences instantiated for the code that
+        exists (fixed DiskDict on disk) ---- *)
+Section RealCode.
+Variable encode : con -> bytes.
+Variable decode : bytes -> option con.
+Variable mr : nat.
+Hypothesis RT : forall c, decode (encode c) = Some c.
+Variable H : fpr -> name.
+Hypothesis HH : hex_names H.
+
+Definition rinv (sp : bool) : dd con -> Prop := if sp then sinv encode else finv encode.
+Definition rkey (sp : bool) : dkey -> Prop := if sp then skey else fkey.
+
+Theorem fix_store_spec_all_layouts sp :
+  store_spec (ops_fix encode decode (S mr)) (rinv sp) (flat_view decode) (rkey sp) /\
+  (forall c q, split c = sp -> rkey sp (key_of H c q)).
+Proof.
+  destruct sp; cbn [rinv rkey]; split.
+  - apply split_store_spec_fix, RT.
+  - intros c q E. unfold key_of. rewrite E. eexists; eexists. split; [reflexivity|apply HH].
+  - apply flat_store_spec_fix, RT.
+  - intros c q E. unfold key_of. rewrite E. eexists. split; [reflexivity|apply HH].
+Qed.
+
+Theorem fix_session_facts orc c qs d ns : rinv (split c) d ->
+  let ops := ops_fix encode decode (S mr) in
+  let d' := fst (snd (run_queries H ops orc c (d, ns) qs)) in
+  rinv (split c) d' /\
+  (cache_only c = true ->
+     snd (snd (run_queries H ops orc c (d, ns) qs)) = ns /\
+     forall k, rkey (split c) k -> flat_view decode d' k = flat_view decode d k) /\
+  (overwrite c = OvImproved -> forall k0 old, rkey (split c) k0 -> flat_view decode d k0 = Some old ->
+     exists new, flat_view decode d' k0 = Some new /\ (c_score new <= c_score old)%Z) /\
+  (overwrite c = OvFalse -> forall k0 cn, rkey (split c) k0 -> flat_view decode d k0 = Some cn ->
+     flat_view decode d' k0 = Some cn).
+Proof.
+  intros HI ops d'. destruct (fix_store_spec_all_layouts (split c)) as [SP KG].
+  assert (KG' : forall c' q', split c' = split c -> rkey (split c) (key_of H c' q')) by exact KG.
+  split; [|split; [|split]].
+  - apply (session_inv H ops orc (rinv (split c)) (flat_view decode) (rkey (split c))
+             (fun c' => split c' = split c) SP KG' c eq_refl qs d ns HI).
+  - intros EC. apply (session_cache_only_never_searches H ops orc (rinv (split c)) (flat_view decode)
+             (rkey (split c)) (fun c' => split c' = split c) SP KG' c eq_refl qs EC d ns HI).
+  - intros EO k0 old G0 V. apply (session_improved_monotone H ops orc (rinv (split c)) (flat_view decode)
+             (rkey (split c)) (fun c' => split c' = split c) SP KG' c eq_refl qs EO d ns k0 old HI G0 V).
+  - intros EO k0 cn G0 V. apply (session_ovfalse_stable H ops orc (rinv (split c)) (flat_view decode)
+             (rkey (split c)) (fun c' => split c' = split c) SP KG' c eq_refl qs EO d ns k0 cn HI G0 V).
+Qed.
+End RealCode.
